@@ -38,7 +38,8 @@ RULE = ("DoWhile workflows built by construction: import stage 0-2, 1-4 looped c
         "loopoutput (replicated or aggregating when the target is replicated); k drawn in 0..13 (quick, biased to 12-13) "
         "/ 0..25 (thorough), optional reload of the instance at a drawn iteration; two-loop workflows with interleaved "
         "iteration orders (per loop up to 12 / 20) and optional restart after the first loop; all oracles evaluated after "
-        "every step. Non-trivial = iteration >= 10 reached, or import stage > 0 together with a loopBinding, or (two "
+        "every step; plus two fixed workflows modelled on tests/test_dowhile.py that are always unrolled to k=13 / 25 with "
+        "a reload at 11 / 17 (so k >= 12 is reached in every run). Non-trivial = iteration >= 10 reached, or import stage > 0 together with a loopBinding, or (two "
         "loops) both loops at different iteration counts; distinct = distinct (workflow shape, history).")
 ASSUMPTIONS = [
     "iterations are instantiated the way Controller._instantiate_next_dowhile_iteration does it (document taken from "
@@ -467,6 +468,62 @@ def check_latestfn(case, ctx: Ctx):
 
 
 # ------------------------------------------------------------------------------------------------------------
+# deterministic part: fixed workflows (modelled on tests/test_dowhile.py) always unrolled to k = 13 (quick) / 25
+def _use(c, method, file=None, abs_=True):
+    return {"c": c, "method": method, "file": file, "abs": abs_}
+
+
+ANCHORS = [
+    # dw_exp_simple: replicated `add` fed by a binding that is loop-carried from the aggregating `acc`
+    {"S": 1, "outer": [{"name": "srcA", "stage": 0}],
+     "binds": [{"name": "bx", "type": "output", "src": 0, "sfile": None, "loop": {"to": 1, "file": None, "abs": False}}],
+     "loop": [{"name": "work", "ls": 0, "uses": [{"b": 0, "file": None}], "replicate": 2, "aggregate": False},
+              {"name": "acc", "ls": 0, "uses": [_use(0, "output", None, False)], "replicate": None, "aggregate": True},
+              {"name": "check", "ls": 0, "uses": [_use(1, "output", None, False)], "replicate": None, "aggregate": False}],
+     "cond": {"c": 2, "file": "next.txt", "abs": False},
+     "cons": [{"name": "repA", "stage": 2, "uses": [_use(0, "output"), _use(1, "loopref")], "aggregate": False},
+              {"name": "repB", "stage": 2, "uses": [_use(2, "loopoutput"), _use(1, "ref", "d.txt")], "aggregate": False}]},
+    # test_dowhile_loopbindings_stage_offset: loopBinding onto a component of the second loop stage, import stage 2
+    {"S": 2, "outer": [{"name": "srcA", "stage": 0}, {"name": "srcB", "stage": 1}],
+     "binds": [{"name": "bx", "type": "output", "src": 1, "sfile": None, "loop": {"to": 1, "file": None, "abs": True}},
+               {"name": "by", "type": "ref", "src": 0, "sfile": "d.txt", "loop": None}],
+     "loop": [{"name": "check", "ls": 0, "uses": [{"b": 1, "file": None}], "replicate": None, "aggregate": False},
+              {"name": "work", "ls": 1, "uses": [{"b": 0, "file": None}, _use(0, "ref")], "replicate": None,
+               "aggregate": False}],
+     "cond": {"c": 0, "file": None, "abs": False},
+     "cons": [{"name": "repA", "stage": 3, "uses": [_use(1, "loopref", "d.txt"), _use(0, "output", "sub/e.dat")],
+               "aggregate": False},
+              {"name": "repB", "stage": 4, "uses": [_use(1, "ref"), _use(0, "loopoutput")], "aggregate": False}]},
+]
+
+
+def anchors(ctx: Ctx):
+    from ..core import _is_known
+    for idx, base in enumerate(ANCHORS):
+        if idx % ctx.nshards != ctx.shard or ctx.stop:
+            continue
+        k = ctx.pick(13, 25)
+        case = dict(json.loads(json.dumps(base)), k=k, reload_at=ctx.pick(11, 17))
+        for _attempt in range(8):
+            ctx.rec.evaluations += 1
+            try:
+                check_unroll(case, ctx)
+                ctx.rec.label("anchor")
+                break
+            except Violation as v:
+                v.case, v.sub = case, "unroll"
+                if v.sig in ctx.excluded:
+                    ctx.rec.excluded[v.sig] += 1
+                    break
+                if _is_known(ctx, v.sig):
+                    ctx.rec.known[v.sig] = v.to_dict()
+                    ctx.excluded.add(v.sig)
+                    continue
+                ctx.rec.violations.append(v.to_dict())
+                ctx.stop = True
+                return
+
+
 def shard(ctx: Ctx):
     kmax = ctx.pick(13, 25)
     explore(ctx, "unroll", c05_docs.dowhile_case(kmax=kmax, kmin_bias=12), check_unroll, ctx.n(240, 5000),
@@ -474,6 +531,7 @@ def shard(ctx: Ctx):
     explore(ctx, "twoloops", c05_docs.two_loops_case(kmax=ctx.pick(12, 20), total=ctx.pick(16, 30)), check_twoloops,
             ctx.n(64, 1500), batch=ctx.pick(8, 50))
     explore(ctx, "latestfn", latestfn_case(), check_latestfn, ctx.n(2000, 100000), batch=1000)
+    anchors(ctx)
 
 
 def replay(sub, case, ctx: Ctx):
